@@ -235,3 +235,44 @@ def fault_catalogue(wd, proto, n, t, seed=0):
     cat = {"fault": vlib.printed(r["out"], "FLT"), "hdr": vlib.printed(r["out"], "HDR"), "equiv": vlib.printed(r["out"], "EQV"),
            "R": d["R"], "shapeB": d["shapeB"] or [], "shapeM": d["shapeM"] or [], "tlc": r, "slots": d["slots"]}
     return cat
+
+
+# ---------------------------------------------------------------------------------------------------
+# every causal delivery order of ONE handler with one failing message (HandlerLocal.tla, bad mode), replayed
+def bad_orders(wd, rep, shape, n, proto, seed, slots=None, dup=0):
+    """For each slot (sender, round, kind) of the shape: TLC enumerates every delivery order in which that slot's message
+    fails verification, with the end state the focus party must reach; hsim replays each order on the real handler.
+    Returns (states, generated, histories, failures)."""
+    names = ["a", "b", "c", "d"][:n]
+    R, sb, sm = SHAPES[shape]
+    allslots = [(j, r, True) for j in names[1:] for r in sb] + [(j, r, False) for j in names[1:] for r in sm]
+    if slots is not None:
+        allslots = [x for k, x in enumerate(allslots) if k in slots]
+    hsim = os.path.join(vlib.HBIN, "hsim")
+    states = gen = nh = 0
+    fails = []
+    for (j, r, b) in allslots:
+        consts = handler_consts(names, ["a"], R, sb, sm, variants=("h", "bad"), dup=dup)
+        consts.update({"F": "a", "Emit": True, "BadFrom": j, "BadRd": r, "BadB": b})
+        c = vlib.cfg(consts, spec="LSpec", invariants=["LBadNeverDone", "LBadBlamed", "EmitBad"], properties=["LBadEnds"])
+        res = vlib.tlc(wd, "HandlerLocal", c, workers=1, timeout=3000)
+        vlib.tlc_must_pass(res, "HandlerLocal.tla bad mode %s slot %s/%d/%s" % (shape, j, r, b))
+        states += res["distinct"]; gen += res["generated"]
+        hists = vlib.printed(res["out"], "HISTB")
+        if not hists:
+            raise vlib.Inconclusive("HandlerLocal (bad mode) emitted no history for %s %s/%d/%s" % (shape, j, r, b))
+        hf = os.path.join(wd, "badhist_%s_%s_%d_%s.jsonl" % (shape.replace(",", "_"), j, r, "b" if b else "m"))
+        with open(hf, "w") as fh:
+            for h in hists:
+                fh.write(json.dumps(h) + "\n")
+        out = hf + ".out.json"
+        p = vlib.run([hsim, "orders", "-proto", proto, "-n", str(n), "-hist", hf, "-out", out, "-seed", str(seed),
+                      "-bad", "%s/%d/%s" % (j, r, "true" if b else "false")], timeout=3000)
+        if p.returncode != 0:
+            raise vlib.Inconclusive("hsim orders (bad mode) failed: %s" % (p.stdout + p.stderr)[-2000:])
+        o = json.load(open(out))
+        nh += o["evaluations"]
+        for f in o["failures"] or []:
+            f["slot"] = "%s/%d/%s" % (j, r, "broadcast" if b else "p2p")
+            fails.append(f)
+    return states, gen, nh, fails
